@@ -1,4 +1,440 @@
+(* C42 — proofs.  Part 1: list lemmas.  Part 2: the read paths of BufferedFile over ANY stream
+   satisfying a prefix-reader contract (reused by C27).  Part 3: the channel-like stream:
+   op sequences, write completeness, line buffering. *)
 From PV Require Import Bytes C42.
+From Coq Require Import Lia ZifyBool.
 Open Scope Z_scope.
-Lemma placeholder : upto_lf [] = [].
+
+(* ---------------------------------------------------------------- lists -- *)
+Lemma is_nil_true d : is_nil d = true <-> d = [].
+Proof. destruct d; cbn; split; congruence. Qed.
+Lemma is_nil_false d : is_nil d = false <-> d <> [].
+Proof. destruct d; cbn; split; congruence. Qed.
+
+Lemma zlen_nonneg l : 0 <= zlen l.
+Proof. unfold zlen. lia. Qed.
+Lemma zlen_app a b : zlen (a ++ b) = zlen a + zlen b.
+Proof. unfold zlen. rewrite app_length. lia. Qed.
+Lemma zlen_nil : zlen [] = 0.
 Proof. reflexivity. Qed.
+Lemma zlen_zero l : zlen l = 0 -> l = [].
+Proof. destruct l; cbn; [reflexivity|]. unfold zlen. cbn. lia. Qed.
+Lemma zlen_pos l : l <> [] -> 0 < zlen l.
+Proof. destruct l; [congruence|]. unfold zlen. cbn. lia. Qed.
+
+Lemma take_firstn n l : take n l = firstn (Z.to_nat n) l.
+Proof.
+  unfold take, zlen. destruct (Z_le_gt_dec n (Z.of_nat (length l))).
+  - rewrite Z.min_l by lia. reflexivity.
+  - rewrite Z.min_r by lia. rewrite Nat2Z.id, firstn_all. symmetry. apply firstn_all2. lia.
+Qed.
+Lemma drop_skipn n l : drop n l = skipn (Z.to_nat n) l.
+Proof.
+  unfold drop, zlen. destruct (Z_le_gt_dec n (Z.of_nat (length l))).
+  - rewrite Z.min_l by lia. reflexivity.
+  - rewrite Z.min_r by lia. rewrite Nat2Z.id, skipn_all. symmetry. apply skipn_all2. lia.
+Qed.
+Lemma take_drop n l : take n l ++ drop n l = l.
+Proof. rewrite take_firstn, drop_skipn. apply firstn_skipn. Qed.
+Lemma zlen_take n l : 0 <= n -> zlen (take n l) = Z.min n (zlen l).
+Proof. intros. rewrite take_firstn. unfold zlen. rewrite firstn_length. lia. Qed.
+Lemma zlen_drop n l : 0 <= n -> zlen (drop n l) = zlen l - Z.min n (zlen l).
+Proof. intros. rewrite drop_skipn. unfold zlen. rewrite skipn_length. lia. Qed.
+Lemma take_all n l : zlen l <= n -> take n l = l.
+Proof. unfold zlen. intros. rewrite take_firstn. apply firstn_all2. lia. Qed.
+Lemma drop_all n l : zlen l <= n -> drop n l = [].
+Proof. unfold zlen. intros. rewrite drop_skipn. apply skipn_all2. lia. Qed.
+Lemma take_neg n l : n <= 0 -> take n l = [].
+Proof. intros. rewrite take_firstn. replace (Z.to_nat n) with O by lia. reflexivity. Qed.
+Lemma drop_neg n l : n <= 0 -> drop n l = l.
+Proof. intros. rewrite drop_skipn. replace (Z.to_nat n) with O by lia. reflexivity. Qed.
+Lemma take_app_le n a b : n <= zlen a -> take n (a ++ b) = take n a.
+Proof.
+  unfold zlen. intros. rewrite !take_firstn, firstn_app.
+  replace (Z.to_nat n - length a)%nat with O by lia. cbn. apply app_nil_r.
+Qed.
+Lemma drop_app_le n a b : n <= zlen a -> drop n (a ++ b) = drop n a ++ b.
+Proof.
+  unfold zlen. intros. rewrite !drop_skipn, skipn_app.
+  replace (Z.to_nat n - length a)%nat with O by lia. reflexivity.
+Qed.
+Lemma take_app_ge n a b : zlen a <= n -> take n (a ++ b) = a ++ take (n - zlen a) b.
+Proof.
+  unfold zlen. intros. rewrite !take_firstn, firstn_app.
+  rewrite (firstn_all2 a) by lia. f_equal. f_equal. lia.
+Qed.
+Lemma drop_app_ge n a b : zlen a <= n -> drop n (a ++ b) = drop (n - zlen a) b.
+Proof.
+  unfold zlen. intros. rewrite !drop_skipn, skipn_app.
+  rewrite (skipn_all2 a) by lia. cbn. f_equal. lia.
+Qed.
+Lemma app_take_inv res l l' : l = res ++ l' -> res = take (zlen res) l /\ l' = drop (zlen res) l.
+Proof.
+  intros ->. split.
+  - rewrite take_app_le by lia. symmetry. apply take_all. lia.
+  - rewrite drop_app_ge by lia. rewrite drop_neg by lia. reflexivity.
+Qed.
+
+(* bytes.find *)
+Lemma index_of_app_some c a b i : index_of c a = Some i -> index_of c (a ++ b) = Some i.
+Proof.
+  revert i. induction a as [|x a IH]; intros i H; cbn in *; [discriminate|].
+  destruct (x =? c); [exact H|].
+  destruct (index_of c a) as [j|] eqn:E; cbn in H; [|discriminate].
+  rewrite (IH j eq_refl). exact H.
+Qed.
+Lemma index_of_bound c l i : index_of c l = Some i -> (i < length l)%nat.
+Proof.
+  revert i. induction l as [|x l IH]; intros i H; cbn in *; [discriminate|].
+  destruct (x =? c); [injection H as <-; lia|].
+  destruct (index_of c l) as [j|] eqn:E; cbn in H; [|discriminate].
+  injection H as <-. specialize (IH j eq_refl). lia.
+Qed.
+Lemma index_of_split c l i : index_of c l = Some i -> firstn (S i) l = firstn i l ++ [c].
+Proof.
+  revert i. induction l as [|x l IH]; intros i H; cbn in H; [discriminate|].
+  destruct (x =? c) eqn:E.
+  - injection H as <-. cbn. f_equal. lia.
+  - destruct (index_of c l) as [j|] eqn:E2; cbn in H; [|discriminate].
+    injection H as <-. specialize (IH j eq_refl).
+    change (firstn (S (S j)) (x :: l)) with (x :: firstn (S j) l). rewrite IH. reflexivity.
+Qed.
+(* no occurrence strictly before the index found *)
+Lemma index_of_first c l i : index_of c l = Some i -> index_of c (firstn i l) = None.
+Proof.
+  revert i. induction l as [|x l IH]; intros i H; cbn in H; [discriminate|].
+  destruct (x =? c) eqn:E.
+  - injection H as <-. reflexivity.
+  - destruct (index_of c l) as [j|] eqn:E2; cbn in H; [|discriminate].
+    injection H as <-. cbn. rewrite E. rewrite (IH j eq_refl). reflexivity.
+Qed.
+Lemma index_of_none_in c l : index_of c l = None -> ~ In c l.
+Proof.
+  induction l as [|x l IH]; cbn; intros H; [tauto|].
+  destruct (x =? c) eqn:E; [discriminate|].
+  destruct (index_of c l) eqn:E2; cbn in H; [discriminate|].
+  intros [->|Hin]; [rewrite Z.eqb_refl in E; discriminate|]. now apply IH.
+Qed.
+Lemma index_of_some_in c l i : index_of c l = Some i -> In c l.
+Proof.
+  revert i. induction l as [|x l IH]; intros i H; cbn in H; [discriminate|].
+  destruct (x =? c) eqn:E; [left; lia|].
+  destruct (index_of c l) as [j|] eqn:E2; cbn in H; [|discriminate]. right. eapply IH. reflexivity.
+Qed.
+
+Lemma has_lf_true l : has_lf l = true -> exists i, index_of LF l = Some i.
+Proof. unfold has_lf. destruct (index_of LF l); [eauto|discriminate]. Qed.
+Lemma has_lf_false l : has_lf l = false -> index_of LF l = None.
+Proof. unfold has_lf. destruct (index_of LF l); [discriminate|reflexivity]. Qed.
+
+Lemma upto_lf_app_some a b i : index_of LF a = Some i -> upto_lf (a ++ b) = upto_lf a.
+Proof.
+  intros H. unfold upto_lf. rewrite (index_of_app_some _ _ b _ H), H.
+  pose proof (index_of_bound _ _ _ H). rewrite firstn_app.
+  replace (S i - length a)%nat with O by lia. cbn. apply app_nil_r.
+Qed.
+Lemma upto_lf_none l : index_of LF l = None -> upto_lf l = l.
+Proof. unfold upto_lf. now intros ->. Qed.
+Lemma upto_lf_some l i : index_of LF l = Some i -> upto_lf l = firstn i l ++ [LF].
+Proof. unfold upto_lf. intros H. rewrite H. now apply index_of_split. Qed.
+
+(* ------------------------------------------------ generic read paths -- *)
+Definition same_cfg {S} (f f' : bf S) : Prop :=
+  wbuf f' = wbuf f /\ fsize f' = fsize f /\ fl_read f' = fl_read f /\ fl_write f' = fl_write f /\
+  fl_append f' = fl_append f /\ fl_buffered f' = fl_buffered f /\ fl_linebuf f' = fl_linebuf f /\
+  bufsize f' = bufsize f /\ closed f' = closed f.
+Lemma same_cfg_refl {S} (f : bf S) : same_cfg f f.
+Proof. unfold same_cfg. tauto. Qed.
+Lemma same_cfg_trans {S} (a b c : bf S) : same_cfg a b -> same_cfg b c -> same_cfg a c.
+Proof. unfold same_cfg. intuition congruence. Qed.
+Lemma same_cfg_upd {S} (f : bf S) rb ps rp s : same_cfg f (upd_rd f rb ps rp s).
+Proof. unfold same_cfg. cbn. tauto. Qed.
+
+Section Generic.
+  Variable S : Type.
+  Variable sread : S -> Z -> Z -> list Z * S.
+  (* Rem s rp: the bytes a reader positioned at rp still has to receive from s *)
+  Variable Rem : S -> Z -> list Z.
+  Variable SInv : S -> Z -> Prop.
+  Hypothesis sread_spec : forall s rp n d s',
+      SInv s rp -> 0 < n -> sread s rp n = (d, s') ->
+      Rem s rp = d ++ Rem s' (rp + zlen d) /\ zlen d <= n /\ (d = [] -> Rem s rp = []) /\
+      SInv s' (rp + zlen d).
+
+  Notation bfs := (bf S).
+  Definition RemOf (f : bfs) : list Z := Rem (strm f) (realpos f).
+  Definition L (f : bfs) : list Z := rbuf f ++ RemOf f.
+  Definition inv (f : bfs) : Prop := SInv (strm f) (realpos f).
+  Definition fuel_ok (fuel : nat) (f : bfs) : Prop := (length (RemOf f) < fuel)%nat.
+
+  (* what every successful read call guarantees *)
+  Definition post (f f' : bfs) (res : list Z) : Prop :=
+    L f = res ++ L f' /\ inv f' /\ same_cfg f f' /\ pos f' = pos f + zlen res /\
+    realpos f' + zlen (RemOf f') = realpos f + zlen (RemOf f).
+
+  Lemma sread_nil s rp n s' : SInv s rp -> 0 < n -> sread s rp n = ([], s') ->
+    Rem s rp = [] /\ Rem s' rp = [] /\ SInv s' rp.
+  Proof.
+    intros Hi Hn E. destruct (sread_spec _ _ _ _ _ Hi Hn E) as (H1 & _ & H3 & H4).
+    rewrite zlen_nil, Z.add_0_r in *. cbn in H1. split; [now apply H3|]. split; [|exact H4].
+    rewrite <- H1. now apply H3.
+  Qed.
+
+  Lemma fill_loop_spec fuel : forall size f,
+    inv f -> fuel_ok fuel f -> 0 < bufsize f ->
+    exists f', fill_loop sread fuel size f = Some f' /\
+      L f' = L f /\ inv f' /\ same_cfg f f' /\ pos f' = pos f /\
+      realpos f' + zlen (RemOf f') = realpos f + zlen (RemOf f) /\
+      (zlen (rbuf f') < size -> RemOf f' = []).
+  Proof.
+    induction fuel as [|k IH]; intros size f Hi Hf Hb.
+    - unfold fuel_ok in Hf. lia.
+    - cbn [fill_loop]. destruct (size <=? zlen (rbuf f)) eqn:E.
+      + exists f. repeat split; try reflexivity; try exact Hi; try apply same_cfg_refl. lia.
+      + set (rs := if fl_buffered f then Z.max (bufsize f) (size - zlen (rbuf f)) else size - zlen (rbuf f)).
+        assert (Hrs : 0 < rs) by (unfold rs; destruct (fl_buffered f); lia).
+        destruct (sread (strm f) (realpos f) rs) as [d s'] eqn:Er.
+        destruct (is_nil d) eqn:En.
+        * apply is_nil_true in En. subst d.
+          destruct (sread_nil _ _ _ _ Hi Hrs Er) as (R1 & R2 & R3).
+          eexists. split; [reflexivity|].
+          unfold L, RemOf, inv. cbn. rewrite R2. fold (RemOf f). unfold RemOf. rewrite R1.
+          repeat split; try reflexivity; try exact R3. apply same_cfg_upd.
+        * apply is_nil_false in En.
+          destruct (sread_spec _ _ _ _ _ Hi Hrs Er) as (H1 & H2 & H3 & H4).
+          set (f1 := upd_rd f (rbuf f ++ d) (pos f) (realpos f + zlen d) s').
+          assert (Hf1 : fuel_ok k f1).
+          { unfold fuel_ok, RemOf in *. cbn. rewrite H1 in Hf. rewrite app_length in Hf.
+            pose proof (zlen_pos _ En). unfold zlen in *. lia. }
+          destruct (IH size f1 H4 Hf1 Hb) as (f' & E1 & E2 & E3 & E4 & E5 & E6 & E7).
+          exists f'. split; [exact E1|]. split.
+          { rewrite E2. unfold L, RemOf. cbn. rewrite H1. now rewrite app_assoc. }
+          split; [exact E3|]. split; [eapply same_cfg_trans; [apply same_cfg_upd|exact E4]|].
+          split; [exact E5|]. split; [|exact E7].
+          rewrite E6. unfold RemOf. cbn. rewrite H1, zlen_app. lia.
+  Qed.
+
+  Lemma read_all_loop_spec fuel : forall res f,
+    inv f -> fuel_ok fuel f ->
+    exists f', read_all_loop sread fuel res f = Some (res ++ RemOf f, f') /\
+      RemOf f' = [] /\ rbuf f' = rbuf f /\ inv f' /\ same_cfg f f' /\
+      pos f' = pos f + zlen (RemOf f) /\ realpos f' = realpos f + zlen (RemOf f).
+  Proof.
+    induction fuel as [|k IH]; intros res f Hi Hf.
+    - unfold fuel_ok in Hf. lia.
+    - cbn [read_all_loop].
+      assert (Hn : 0 < DEFAULT_BUFSIZE) by (unfold DEFAULT_BUFSIZE; lia).
+      destruct (sread (strm f) (realpos f) DEFAULT_BUFSIZE) as [d s'] eqn:Er.
+      destruct (is_nil d) eqn:En.
+      + apply is_nil_true in En. subst d.
+        destruct (sread_nil _ _ _ _ Hi Hn Er) as (R1 & R2 & R3).
+        eexists. split.
+        { unfold RemOf. rewrite R1, app_nil_r. reflexivity. }
+        unfold RemOf, inv. cbn. rewrite R1, R2. cbn.
+        repeat split; try reflexivity; try exact R3; try lia. apply same_cfg_upd.
+      + apply is_nil_false in En.
+        destruct (sread_spec _ _ _ _ _ Hi Hn Er) as (H1 & H2 & H3 & H4).
+        set (f1 := upd_rd f (rbuf f) (pos f + zlen d) (realpos f + zlen d) s').
+        assert (Hf1 : fuel_ok k f1).
+        { unfold fuel_ok, RemOf in *. cbn. rewrite H1 in Hf. rewrite app_length in Hf.
+          pose proof (zlen_pos _ En). unfold zlen in *. lia. }
+        destruct (IH (res ++ d) f1 H4 Hf1) as (f' & E1 & E2 & E3 & E4 & E5 & E6 & E7).
+        exists f'. split.
+        { rewrite E1. unfold RemOf at 2. rewrite H1. unfold RemOf. cbn. now rewrite app_assoc. }
+        split; [exact E2|]. split; [exact E3|]. split; [exact E4|].
+        split; [eapply same_cfg_trans; [apply same_cfg_upd|exact E5]|].
+        unfold RemOf in *. cbn in E6, E7. rewrite H1, zlen_app. lia.
+  Qed.
+
+  (* ---- read(n), read() ---- *)
+  Lemma read_n_spec fuel f n :
+    inv f -> fuel_ok fuel f -> 0 < bufsize f -> closed f = false -> fl_read f = true -> 0 <= n ->
+    exists f', bf_read sread fuel f (Some n) = (Ok (take n (L f)), f') /\ post f f' (take n (L f)).
+  Proof.
+    intros Hi Hf Hb Hc Hr Hn. unfold bf_read. rewrite Hc, Hr. cbn [negb].
+    replace (n <? 0) with false by lia.
+    destruct (n <=? zlen (rbuf f)) eqn:E.
+    - eexists. split.
+      { unfold L. rewrite take_app_le by lia. reflexivity. }
+      unfold post, L, RemOf, inv. cbn. rewrite take_app_le by lia.
+      rewrite app_assoc, take_drop. repeat split; try reflexivity; try exact Hi. apply same_cfg_upd.
+    - destruct (fill_loop_spec fuel n f Hi Hf Hb) as (f1 & E1 & E2 & E3 & E4 & E5 & E6 & E7).
+      rewrite E1.
+      assert (Ht : take n (rbuf f1) = take n (L f)).
+      { rewrite <- E2. unfold L. destruct (Z_lt_ge_dec (zlen (rbuf f1)) n) as [Hlt|Hge].
+        - rewrite (E7 Hlt), app_nil_r. reflexivity.
+        - rewrite take_app_le by lia. reflexivity. }
+      eexists. split; [rewrite Ht; reflexivity|].
+      unfold post. rewrite <- Ht. unfold L at 2, RemOf, inv. cbn.
+      rewrite app_assoc, take_drop. fold (RemOf f1). fold (L f1).
+      split; [now rewrite E2|]. split; [exact E3|].
+      split; [eapply same_cfg_trans; [exact E4|apply same_cfg_upd]|].
+      split; [rewrite E5; reflexivity|]. exact E6.
+  Qed.
+
+  Lemma read_all_spec fuel f size :
+    inv f -> fuel_ok fuel f -> closed f = false -> fl_read f = true ->
+    match size with None => True | Some n => n < 0 end ->
+    exists f', bf_read sread fuel f size = (Ok (L f), f') /\ post f f' (L f) /\ L f' = [].
+  Proof.
+    intros Hi Hf Hc Hr Hs. unfold bf_read. rewrite Hc, Hr. cbn [negb].
+    replace (match size with None => true | Some n => n <? 0 end) with true
+      by (destruct size; [symmetry; lia|reflexivity]).
+    set (f0 := upd_rd f [] (pos f + zlen (rbuf f)) (realpos f) (strm f)).
+    assert (Hi0 : inv f0) by exact Hi.
+    assert (Hf0 : fuel_ok fuel f0) by exact Hf.
+    destruct (read_all_loop_spec fuel (rbuf f) f0 Hi0 Hf0) as (f' & E1 & E2 & E3 & E4 & E5 & E6 & E7).
+    rewrite E1. exists f'. split; [reflexivity|].
+    assert (HL : L f' = []) by (unfold L; rewrite E2, E3; reflexivity).
+    split; [|exact HL]. unfold post. rewrite HL, app_nil_r.
+    split; [reflexivity|]. split; [exact E4|].
+    split; [eapply same_cfg_trans; [apply same_cfg_upd|exact E5]|].
+    change (RemOf f0) with (RemOf f) in *. cbn in E6, E7.
+    unfold L. rewrite zlen_app, E2, zlen_nil. lia.
+  Qed.
+
+  (* ---- readline ---- *)
+  Definition szof (size : option Z) : Z := match size with Some s => s | None => 0 end.
+
+  Lemma rl_loop_spec fuel : forall size line f,
+    inv f -> fuel_ok fuel f -> 0 < bufsize f ->
+    match rl_loop sread fuel size line f with
+    | RLFuel => False
+    | RLEof line' f' =>
+        line' = line ++ RemOf f /\ RemOf f' = [] /\ has_lf line' = false /\
+        (sized size = true -> zlen line' < szof size) /\
+        inv f' /\ same_cfg f f' /\ pos f' = pos f /\
+        realpos f' + zlen (RemOf f') = realpos f + zlen (RemOf f)
+    | RLBreak line' true f' =>
+        sized size = true /\
+        exists full, full ++ RemOf f' = line ++ RemOf f /\ szof size <= zlen full /\
+          line' = take (szof size) full /\ rbuf f' = drop (szof size) full /\
+          inv f' /\ same_cfg f f' /\ pos f' = pos f /\
+          realpos f' + zlen (RemOf f') = realpos f + zlen (RemOf f)
+    | RLBreak line' false f' =>
+        line' ++ RemOf f' = line ++ RemOf f /\ has_lf line' = true /\
+        (sized size = true -> zlen line' < szof size) /\
+        inv f' /\ same_cfg f f' /\ pos f' = pos f /\
+        realpos f' + zlen (RemOf f') = realpos f + zlen (RemOf f)
+    end.
+  Proof.
+    induction fuel as [|k IH]; intros size line f Hi Hf Hb.
+    - unfold fuel_ok in Hf. lia.
+    - cbn [rl_loop]. fold (sized size). fold (szof size).
+      destruct (sized size && (szof size <=? zlen line)) eqn:E.
+      + apply andb_true_iff in E as [E1 E2].
+        split; [exact E1|]. exists line. unfold RemOf, inv. cbn.
+        repeat split; try reflexivity; try exact Hi; try lia. apply same_cfg_upd.
+      + destruct (has_lf line) eqn:Hl.
+        * repeat split; try reflexivity; try exact Hi; try apply same_cfg_refl; try exact Hl.
+          intros Hs. rewrite Hs in E. cbn in E. lia.
+        * set (n := if sized size then szof size - zlen line else bufsize f).
+          assert (Hn : 0 < n).
+          { unfold n. destruct (sized size); [cbn in E; lia|lia]. }
+          destruct (sread (strm f) (realpos f) n) as [d s'] eqn:Er.
+          destruct (is_nil d) eqn:En.
+          -- apply is_nil_true in En. subst d.
+             destruct (sread_nil _ _ _ _ Hi Hn Er) as (R1 & R2 & R3).
+             unfold RemOf, inv. cbn. rewrite R1, R2, app_nil_r.
+             repeat split; try reflexivity; try exact R3; try exact Hl; try apply same_cfg_upd.
+             intros Hs. rewrite Hs in E. cbn in E. lia.
+          -- apply is_nil_false in En.
+             destruct (sread_spec _ _ _ _ _ Hi Hn Er) as (H1 & H2 & H3 & H4).
+             set (f1 := upd_rd f (rbuf f) (pos f) (realpos f + zlen d) s').
+             assert (Hf1 : fuel_ok k f1).
+             { unfold fuel_ok, RemOf in *. cbn. rewrite H1 in Hf. rewrite app_length in Hf.
+               pose proof (zlen_pos _ En). unfold zlen in *. lia. }
+             assert (HR : RemOf f = d ++ RemOf f1) by exact H1.
+             specialize (IH size (line ++ d) f1 H4 Hf1 Hb).
+             assert (Hz : realpos f1 + zlen (RemOf f1) = realpos f + zlen (RemOf f)).
+             { rewrite HR, zlen_app. cbn. lia. }
+             destruct (rl_loop sread k size (line ++ d) f1) as [l' f'|l' [|] f'|].
+             ++ destruct IH as (A1 & A2 & A3 & A4 & A5 & A6 & A7 & A8).
+                rewrite HR, app_assoc.
+                repeat split; try assumption.
+                ** eapply same_cfg_trans; [apply same_cfg_upd|exact A6].
+                ** rewrite A8. rewrite <- HR. exact Hz.
+             ++ destruct IH as (A0 & full & A1 & A2 & A3 & A4 & A5 & A6 & A7 & A8).
+                split; [exact A0|]. exists full. rewrite HR, app_assoc.
+                repeat split; try assumption.
+                ** eapply same_cfg_trans; [apply same_cfg_upd|exact A6].
+                ** rewrite A8. rewrite <- HR. exact Hz.
+             ++ destruct IH as (A1 & A2 & A3 & A5 & A6 & A7 & A8).
+                rewrite HR, app_assoc.
+                repeat split; try assumption.
+                ** eapply same_cfg_trans; [apply same_cfg_upd|exact A6].
+                ** rewrite A8. rewrite <- HR. exact Hz.
+             ++ exact IH.
+  Qed.
+
+  Lemma take_succ_index p line : index_of LF line = Some p ->
+    (take (Z.of_nat p) line ++ [LF]) ++ drop (Z.of_nat p + 1) line = line.
+  Proof.
+    intros H. rewrite take_firstn, drop_skipn, Nat2Z.id.
+    replace (Z.to_nat (Z.of_nat p + 1)) with (Datatypes.S p) by lia.
+    rewrite <- (index_of_split _ _ _ H). apply firstn_skipn.
+  Qed.
+
+  Lemma readline_spec fuel f size :
+    inv f -> fuel_ok fuel f -> 0 < bufsize f -> closed f = false -> fl_read f = true ->
+    exists f', bf_readline sread fuel f size = (Ok (line_spec size (L f)), f') /\
+               post f f' (line_spec size (L f)).
+  Proof.
+    intros Hi Hf Hb Hc Hr. unfold bf_readline. rewrite Hc, Hr. cbn [negb].
+    pose proof (rl_loop_spec fuel size (rbuf f) f Hi Hf Hb) as H.
+    fold (L f) in H.
+    assert (Hspec : line_spec size (L f) =
+                    if sized size then upto_lf (take (szof size) (L f)) else upto_lf (L f)).
+    { unfold line_spec, sized, szof. destruct size; reflexivity. }
+    destruct (rl_loop sread fuel size (rbuf f) f) as [l' f1|l' [|] f1|].
+    - (* EOF *)
+      destruct H as (A1 & A2 & A3 & A4 & A5 & A6 & A7 & A8).
+      assert (El : line_spec size (L f) = l').
+      { rewrite Hspec, <- A1. destruct (sized size) eqn:Es.
+        - rewrite take_all by (specialize (A4 eq_refl); lia). apply upto_lf_none. now apply has_lf_false.
+        - apply upto_lf_none. now apply has_lf_false. }
+      rewrite El. eexists. split; [reflexivity|].
+      unfold post, L, RemOf, inv. cbn. fold (RemOf f1). rewrite A2, app_nil_r.
+      split; [exact A1|]. split; [exact A5|].
+      split; [eapply same_cfg_trans; [exact A6|apply same_cfg_upd]|].
+      split; [rewrite A7; reflexivity|]. rewrite <- A8, A2. reflexivity.
+    - (* truncated break *)
+      destruct H as (Es & full & A1 & A2 & A3 & A4 & A5 & A6 & A7 & A8).
+      assert (Ht : take (szof size) (L f) = l').
+      { rewrite <- A1, take_app_le by lia. now rewrite A3. }
+      rewrite Hspec, Es, Ht.
+      assert (Hfull : l' ++ rbuf f1 = full) by (rewrite A3, A4; apply take_drop).
+      destruct (index_of LF l') as [p|] eqn:Ep.
+      + rewrite (upto_lf_some _ _ Ep).
+        replace (firstn p l') with (take (Z.of_nat p) l') by (rewrite take_firstn, Nat2Z.id; reflexivity).
+        eexists. split; [reflexivity|].
+        unfold post, L, RemOf, inv. cbn. fold (RemOf f1).
+        split.
+        { rewrite <- A1, <- Hfull. rewrite <- (take_succ_index _ _ Ep) at 1.
+          now rewrite <- !app_assoc. }
+        split; [exact A5|]. split; [eapply same_cfg_trans; [exact A6|apply same_cfg_upd]|].
+        split; [rewrite A7; reflexivity|exact A8].
+      + rewrite (upto_lf_none _ Ep). eexists. split; [reflexivity|].
+        unfold post, L, RemOf, inv. cbn. fold (RemOf f1).
+        split; [rewrite <- A1, <- Hfull; now rewrite app_assoc|].
+        split; [exact A5|]. split; [eapply same_cfg_trans; [exact A6|apply same_cfg_upd]|].
+        split; [rewrite A7; reflexivity|exact A8].
+    - (* newline found *)
+      destruct H as (A1 & A2 & A4 & A5 & A6 & A7 & A8).
+      destruct (has_lf_true _ A2) as (p & Ep). rewrite Ep.
+      assert (El : line_spec size (L f) = take (Z.of_nat p) l' ++ [LF]).
+      { rewrite Hspec, <- A1. destruct (sized size) eqn:Es.
+        - rewrite take_app_ge by (specialize (A4 eq_refl); lia).
+          rewrite (upto_lf_app_some _ _ _ Ep), (upto_lf_some _ _ Ep).
+          now rewrite take_firstn, Nat2Z.id.
+        - rewrite (upto_lf_app_some _ _ _ Ep), (upto_lf_some _ _ Ep).
+          now rewrite take_firstn, Nat2Z.id. }
+      rewrite El. eexists. split; [reflexivity|].
+      unfold post, L, RemOf, inv. cbn. fold (RemOf f1).
+      split.
+      { rewrite <- A1. rewrite <- (take_succ_index _ _ Ep) at 1. now rewrite <- !app_assoc. }
+      split; [exact A5|]. split; [eapply same_cfg_trans; [exact A6|apply same_cfg_upd]|].
+      split; [rewrite A7; reflexivity|exact A8].
+    - contradiction.
+  Qed.
+End Generic.
